@@ -77,6 +77,7 @@ def main():
     ap.add_argument("--expect", default="")
     ap.add_argument("--corpus", default=os.path.join(VERIF, "selftest", "corpus.json"))
     ap.add_argument("-v", action="store_true")
+    ap.add_argument("--jobs", type=int, default=4)
     args = ap.parse_args()
     if args.patch:
         cases = [{"id": os.path.basename(args.patch), "patch": os.path.abspath(args.patch), "expect": [x for x in args.expect.split(",") if x]}]
@@ -88,8 +89,9 @@ def main():
     baseline_fail = {"TestSAML", "TestSAMLUsingSetSPKeyStore"}
     bad = 0
     out = []
-    for c in cases:
-        r = run_case(c, args, baseline_fail)
+    from concurrent.futures import ThreadPoolExecutor
+    ex = ThreadPoolExecutor(args.jobs)
+    for r in ex.map(lambda c: run_case(c, args, baseline_fail), cases):
         out.append(r)
         line = f"{r['id']:8} {r['result']:12} expect={r.get('expect')} detected={r.get('detected')} unexpected={r.get('unexpected')} {r.get('detail','')}"
         print(line, flush=True)
@@ -101,7 +103,7 @@ def main():
                     print("      ", cr["tail"])
         if r["result"] != "OK":
             bad += 1
-    json.dump(out, open("/tmp/govc-muttest-last.json", "w"), indent=1)
+    json.dump(out, open(os.path.join(VERIF, "out", "muttest-last.json"), "w"), indent=1)
     print(f"{len(cases)-bad}/{len(cases)} as expected")
     sys.exit(1 if bad else 0)
 
